@@ -45,7 +45,8 @@ type Clock struct {
 	StartS  int64  `json:"start_s,omitempty"`  // plus unix seconds (for far years)
 	TickNs  int64  `json:"tick_ns,omitempty"`  // granularity (0 = 1ns)
 	Zone    string `json:"zone,omitempty"`     // "", "UTC", "+08:00", "-03:30", or an IANA name
-	MaxStep int64  `json:"max_step,omitempty"` // tape-chosen advance per read in [0,MaxStep] ns
+	MinStep int64  `json:"min_step,omitempty"` // every read advances the clock by at least this much
+	MaxStep int64  `json:"max_step,omitempty"` // tape-chosen advance per read in [MinStep,MaxStep] ns
 	Local   string `json:"local,omitempty"`    // value for time.Local ("" = leave)
 }
 
